@@ -10,6 +10,16 @@ CHECKS = {
         technique='bounded-exhaustive enumeration of all built-in value trees <= N nodes over an adversarial leaf alphabet x all widths 1..L+3 x ribbons x indents x key sorting, each output evaluated and compared by typed structural equality; deep-chain families enumerated completely',
         text='Every value tree up to the node bound is printed by the real pformat at every width from 1 to its one-line length + 3 (plus 79 and 200), with every ribbon <= width for small trees, indents and both key orders; each output is parsed, evaluated and compared with typed equality (float bit patterns, bool vs int, dict order). Deterministic deep-chain families (every wrapper recipe of length <= 2 to depth 25 around every leaf) replace the random larger values of the quantifier. The known counter-examples sit at width 1 or ~20 levels deep, which only exhaustive sweeps of the width axis and the scaled families reach.',
         note='trusted: CPython ast/eval, typed_eq in mc/oracles.py; bound: trees <= 3 nodes complete + a seed-rotated slice of 4 nodes (quick), <= 4 nodes complete + 5 nodes over a reduced leaf set (thorough); values outside the alphabets are not covered'),
+    'C02': dict(
+        category='exploration', design_ref='DESIGN.md 4/C02',
+        technique='bounded-exhaustive enumeration of all str/bytes over an adversarial alphabet up to a length bound and of all chunk sequences, x six placements x every width 1..len+14; token-level oracle on the adjacent STRING tokens; direct exhaustive sweep of the splitter and escaper',
+        text='All strings and byte strings over {quote, double quote, backslash, space, newline, letter, non-ASCII, NUL} up to the length bound, all sequences of chunks (up to 55 columns, so every branch of the splitter is reached), a code-point sweep and long scaled families are printed in six placements at every width from 1 up; the literal must be a run of adjacent STRING tokens with the right prefix, no empty piece, and concatenate to exactly the value. The splitter and escaper are additionally swept directly for every string x max_len 1..8 x both quotes.',
+        note='trusted: tokenize / ast.literal_eval; the direct splitter sub-check is skipped (and reported) if the helpers are not importable; strings outside the alphabets are not covered'),
+    'C08': dict(
+        category='exploration', design_ref='DESIGN.md 4/C08',
+        technique='exhaustive enumeration of a subclass family (plain / __repr__+__str__ overriding / IntEnum) of the nine built-in bases x per-base value alphabets x nine placements x every width 1..L+3; output evaluated and compared with class-aware typed equality',
+        text='Every instance of the generated subclass family is printed at top level, next to a 30-column sibling, after short and long dict keys, as call argument, dict key and set element, at every width from 1 to its one-line length + 3; evaluation must give back the same subclass around an equal base value. The failing regions need a coincidence (too wide for the rest of the line yet fitting a line of its own; a subclass overriding __repr__) that only a full width sweep next to fixed-length siblings reaches.',
+        note='trusted: CPython eval, typed_eq/canon in mc/oracles.py; subclass families and value alphabets are small by design'),
     'C04': dict(
         category='model_checking', design_ref='DESIGN.md 4/C04',
         technique='explicit enumeration of all document terms <= K nodes x all (width, ribbon) pairs x both strategies on the real engine; membership of each observed SDoc stream in the fully enumerated layout set of the reference semantics',
